@@ -38,12 +38,18 @@ PROPS["C16"] = {
     "trusted": ["pyvc interpreter (ground evaluation of the real AST)", "z3 5.1.0 for the functional clauses"],
 }
 
+ADDCAT = UDB + ":UnitDatabase.AddCategory"
 PROPS["C14"] = {
-    "tasks": lambda tier: table_tasks("table_c14"),
+    "tasks": lambda tier: table_tasks("table_c14") + [V(UDB + ":UnitDatabase.AddUnit"), V(UDB + ":UnitDatabase.AddUnitBase"), V(UDB + ":UnitDatabase.GetValidUnits")] + VP(ADDCAT, 16),
     "level": "proof",
-    "level_text": "Shipped tables: the three fillers are executed from their real AST (AddUnit/AddUnitBase/AddCategory/UnitInfo bodies included) and the resulting registry is checked row by row for W1 (symbol/list agreement, one quantity type per symbol), W2 (first-listed unit has identity to-base/from-base, proved for all reals by z3) and W3 (category quantity type, default/valid units, default value inside limits). The any-history half (mutator contracts preserving WF) is not yet claimed.",
-    "level_note": "history part (mutator contracts) not yet registered; floats are reals; pyvc Python semantics",
+    "level_text": "History half: AddUnit, AddUnitBase and AddCategory are verified, for an arbitrary well-formed registry and symbolic arguments, to (a) leave the registry exactly as it was when they reject the call, (b) write exactly the entry they register (post-state given as Store terms over the pre-state), and (c) preserve every clause of the registry invariant WF at generic keys - one quantity type per symbol with list/dictionary agreement and no duplicates (W1), identity conversions for the first-listed unit (W2), categories with an existing type, default and valid units of that type, ordered limits and a default value inside them (W3) - so WF holds after any sequence of accepted and rejected registrations by induction. AddCategory additionally accepts well-formed arguments, stores the given / inherited / derived fields, and the new entry satisfies W3. Table half: the three shipped fillers are executed from their real AST and the resulting registries are checked row by row for W1-W3 (W2 for all reals by z3). Known finding: AddUnit on a quantity type without units makes a non-identity unit first-listed until AddUnitBase is called.",
+    "level_note": "AddCategory with valid_units: lists of 0-2 symbolic names (thorough) / 1 (quick) - shape-bounded; inheriting valid_units from from_category (a loop over the source category's own list of unknown length) is handled by the generic-iteration rule with the invariant instances W3/F1 of its elements; precondition: new symbols are not legacy spellings (F1); 'every registered unit and category can be used to build a valid Scalar' follows from W1/W3 with Quantity.__init__'s contract (C05/C07) and is replayed natively by the registry_history probe, not proved as one obligation; floats are reals; induction over histories is the meta-step A9",
+    "trusted": ["z3 5.1.0", "pyvc symbolic interpreter; registry dictionaries modelled as arrays (pyvc/registry.py)"],
 }
+
+def VP(fq, n):
+    return [("verify", {"fq": fq, "part": i, "nparts": n}) for i in range(n)]
+
 
 SC = "barril.units._scalar:Scalar"
 QM = "barril.units._quantity"
@@ -60,10 +66,6 @@ PROPS["C08"] = {
     "level_text": "Ordering: Scalar <, <=, >, >= evaluated through Python's rich-comparison dispatch on the real __lt__/__le__/__gt__/__ge__ bodies are proved equal to the same operator on value(a) and conv(unit(b)->unit(a))(value(b)) for arbitrary registered units of one quantity type, TypeError for different quantity types; with the C01 monotonicity lemma this is the order of physical amounts. Equality totality/symmetry and FractionScalar ordering are not yet under contract.",
     "level_note": "floats are reals; WF/QI assumed for inputs",
 }
-
-
-def VP(fq, n):
-    return [("verify", {"fq": fq, "part": i, "nparts": n}) for i in range(n)]
 
 
 OPS_KEY = SC + "._DoOperation#operators"
@@ -125,4 +127,21 @@ PROPS["C07"] = {
     "level_text": "Quantity as an immutable interned value. (1) ObtainQuantity, every request form with symbolic names (unit with/without category and caption; composing maps with 1-2 entries (thorough 3), list or tuple pairs): the result is the object interned under the request's key; a repeated request returns the identical object; the intern table after the call is exactly the old table plus the keys of this request (so requests that differ in category, unit, exponent or caption never share an entry and nothing is overwritten); the new quantity owns a fresh composing map whose pairs are lists; failures leave the table unchanged. (2) Quantity.__init__ establishes the class invariant QI. (3) copy, deepcopy, Copy, MakeCopy(), CreateCopyInstance() return the object itself; SetUnknownCaption raises ReadOnlyError; == is exactly equality of (composing map, caption), symmetric, reflexive, False (never raising) against None/int/str/tuple; hash is congruent with ==; __reduce__ rebuilds an equal quantity. (4) Frame obligations: no database operation, Scalar operator, conversion or comparison under contract writes any slot of an operand quantity other than the two lazy caches, nor its composing map.",
     "level_note": "hash() is an uninterpreted function of the ==-class (A7); pickle itself is assumed to call __reduce__'s function on copies of its arguments (A8); intern-table invariant CC(K) assumed for hits; arithmetic frames shape-bounded as C03",
     "trusted": STD_TRUSTED + ["hash of str/float/tuple is a function of the value (A7)", "pickle protocol (A8)"],
+}
+
+AVQ = "barril.units._abstractvaluewithquantity:AbstractValueWithQuantityObject"
+PROPS["C15"] = {
+    "tasks": lambda tier: [V(UDB + ":UnitDatabase.GetInfo"), V(UDB + ":UnitDatabase.Convert"), V(UDB + ":UnitDatabase.CheckCategoryUnit"), V(UDB + ":UnitDatabase.GetDefaultCategory"), V(UDB + ":UnitDatabase.GetValidUnits"), V(AVQ + ".GetValidUnits"), V(UDB + ":UnitDatabase.AddUnit"), V(UDB + ":UnitDatabase.AddUnitBase"), V(QM + ":Quantity.ConvertScalarValue"), V(QM + ":Quantity.CheckValue"), V(QM + ":Quantity.__init__"), V(SC + ".GetAbstractValue"), V(AVQ + ".CreateCopy"), V(QM + ":Quantity#value-semantics")]
+    + VP(ADDCAT, 16) + VP(QM + ":ObtainQuantity", 16) + VP(OPS_KEY, 10),
+    "level": "proof",
+    "level_text": "Purity as frame obligations on every function under contract: lookups (GetInfo, GetDefaultCategory, GetValidUnits, value.GetValidUnits), conversions (Convert, ConvertScalarValue, Scalar.GetValue), validity checks (CheckCategoryUnit, CheckValue), construction (Quantity.__init__, ObtainQuantity, CreateCopy), comparisons/copies and Scalar arithmetic are proved to leave the three registry dictionaries unchanged (array equality pre = post); the only writes are insert-only additions to the validity memo and the intern table. Cache invisibility: CheckCategoryUnit's memo-hit and memo-miss paths return the same verdict (memo consistent with the registry: invariant CC, proved preserved by CheckCategoryUnit and by the mutators AddUnit/AddUnitBase/AddCategory, which now clear it); ObtainQuantity's hit and miss paths return a quantity denoting the same request. Hence every answer is a function of the registry and the arguments - the same on a warm and on a fresh database (meta-step A9).",
+    "level_note": "queries not under contract: GetUnits/GetBaseUnit/GetInfos/GetUnitName (inlined where called), the unit-system manager; intern-table consistency after AddCategory(override=True) (cached quantities keep the replaced CategoryInfo) is not covered; arithmetic shape-bounded as C03",
+    "trusted": STD_TRUSTED,
+}
+PROPS["C12"] = {
+    "tasks": lambda tier: [V(QM + ":Quantity.CheckValue"), V(QM + ":Quantity.ConvertScalarValue")] + VP(ADDCAT, 16) + table_tasks("table_c14"),
+    "level": "proof",
+    "level_text": "Quantity.CheckValue is verified against the functional contract 'accepts exactly when the amount re-expressed in the category's default unit satisfies the limits': for a symbolic category (limits present/absent, inclusive/exclusive, symbolic reals), a symbolic unit of its type and an extended float (NaN, +inf, -inf flags) it returns iff both limits hold for y = conv(unit -> default unit)(value), otherwise raises QuantityValidationError carrying y, the violated limit (min before max) and the operator matching exclusivity, in symbols or words; NaN satisfies no limit; derived quantities are accepted. AddCategory is proved never to register a default unit outside the category's quantity type or a default value outside its own limits (W3 of the new entry, for all combinations of given / inherited / absent limits, default value and default unit), and the shipped tables satisfy the same row by row. Scalar/FractionScalar/Array IsValid/CheckValidity wrappers and the Array min/max scan are not yet under contract.",
+    "level_note": "unit-independence is by construction of the contract (the verdict is a function of conv(unit -> default unit)(value) only) together with C01's monotonicity lemma; floats are reals with NaN/inf flags; Array validation not yet claimed",
+    "trusted": STD_TRUSTED,
 }
